@@ -102,7 +102,7 @@ open Rml.SerHist in
     decodes into exactly the accepted messages, in order. -/
 theorem C07_legal (ops : List C19.SerOp) (hwf : HistWF {} ops) :
     Spec.Chunk.decodeSeq (wire (trace {} ops)) = some (msgs (trace {} ops)) := by
-  have := hist_reads ops {} {} [] SR_init hwf
+  obtain ⟨sE, this, _⟩ := hist_reads ops {} {} [] SR_init hwf
   rw [keepSel_nil] at this
   exact SerSpec.reads_decodeSeq this
 
